@@ -353,3 +353,32 @@ def fx_family(tier):
         f'({s["counters"].get("cli_runs", 0)} through cgt-tool), {s["findings"]} deviations')
     _family_cache[key] = r
     return r
+
+
+# --------------------------------------------------------------------------------------------
+# MC_Dsl (C13, C14)
+
+def dsl_cfg(mode, depth):
+    return f'''SPECIFICATION Spec
+CONSTANTS
+  Mode = "{mode}"
+  StyleDepth = {depth}
+INVARIANTS SpellingMeansTx WriterRoundTrips Emit
+CHECK_DEADLOCK FALSE
+'''
+
+
+def dsl_family(mode, depth=1):
+    key = f'dsl_{mode}_{depth}'
+    if key in _family_cache:
+        return _family_cache[key]
+    cfg = write_cfg(f'MC_Dsl_{mode}_{depth}', dsl_cfg(mode, depth))
+    m = tlc('MC_Dsl', cfg, workers=8, timeout=3000)
+    log(f'[tlc] MC_Dsl/{mode}/{depth}: {m["states"]} distinct states ({"cached" if m["cached"] else str(m["wall_s"]) + "s"})')
+    wd = workdir(key)
+    out = os.path.join(wd, 'findings.ndjson')
+    s = harness('replay_dsl', ['--in', m['out'], '--out', out])
+    r = {'name': key, 'tlc': m, 'summary': s, 'findings': read_ndjson(out), 'obs': None}
+    log(f'[replay] MC_Dsl/{mode}/{depth}: {s["records"]} cases, {s["counters"].get("executions", 0)} executions, {s["findings"]} deviations')
+    _family_cache[key] = r
+    return r
